@@ -177,7 +177,11 @@ func (db *SingleBucketBackend) getBucketWithFilePrefixLocked(bucket string, pref
 		}
 
 		if entry.IsDir() {
-			response.AddPrefix(path.Join(prefixPath, entry.Name()) + "/")
+			// A directory is the common prefix of the keys stored below it; one
+			// that holds none (a delete could not remove it) is nobody's prefix:
+			if holdsObject(db.fs, filepath.FromSlash(objectPath)) {
+				response.AddPrefix(path.Join(prefixPath, entry.Name()) + "/")
+			}
 
 		} else {
 			size := entry.Size()
